@@ -5,13 +5,22 @@ package harness
 // scripted Close/Shutdown calls.  Compared with coq/theories/ServerLife.v by
 // coq/theories/CheckLife.v, and judged against property C20 there.
 //
-//	(life (ops conn temp perm close shutdown (finish n<k>) expire ...)
+//	(life (ops conn temp perm close shutdown wclose wshutdown (finish n<k>) expire ...)
 //	      (obs (skip)|(accepted)|(delay n<ms>)|(serveret nil|err|other)|
 //	           (ret nil|closed|ctx|other)|(pending)|(sdret nil|ctx|closed|other)|
 //	           (none)|(timeout) ...)            one per op
 //	      (serve running|nil|err|other)          what Serve returned in the end
 //	      (conns open|closed|finished ...)       per accepted connection
 //	      (accepts n<calls of Accept>))
+//
+// wclose / wshutdown: Close / Shutdown with a connection in the window between
+// Accept's return and its handler's registration in s.conns.  The window is
+// forced, not sampled: Server.Close and Server.Shutdown call the listener's
+// Close while holding s.locker (s.done is closed by then), and the scripted
+// listener's Close hands a connection to the pending Accept and returns only
+// after Serve has spawned its handler and called Accept again.  The handler
+// needs s.locker to register, so it registers AFTER Close has gone through
+// s.conns (ServerLife.v: OAccept AConn; OClose; ORegister k).
 
 import (
 	"bufio"
@@ -28,7 +37,7 @@ import (
 )
 
 type lifeOp struct {
-	kind string // conn temp perm close shutdown finish expire
+	kind string // conn temp perm close shutdown wclose wshutdown finish expire
 	k    int
 }
 
@@ -62,6 +71,7 @@ type lifeListener struct {
 	mu     sync.Mutex
 	ncalls int
 	retAt  time.Time // when the last Accept returned
+	onClose func()   // run once by Close before the listener is closed
 }
 
 func newLifeListener() *lifeListener {
@@ -85,8 +95,66 @@ func (l *lifeListener) Accept() (net.Conn, error) {
 }
 
 func (l *lifeListener) Close() error {
-	l.once.Do(func() { close(l.closed) })
+	l.once.Do(func() {
+		l.mu.Lock()
+		h := l.onClose
+		l.onClose = nil
+		l.mu.Unlock()
+		if h != nil {
+			h()
+		}
+		close(l.closed)
+	})
 	return nil
+}
+
+func (l *lifeListener) setOnClose(h func()) {
+	l.mu.Lock()
+	l.onClose = h
+	l.mu.Unlock()
+}
+
+// armWindow makes the listener's Close (called by Server.Close / Shutdown
+// under s.locker) hand one more connection to the pending Accept and wait
+// until Serve has spawned its handler (= has called Accept again).  ran
+// receives whether that happened.
+func (l *lifeListener) armWindow() (lc *lifeConn, ran chan bool) {
+	c1, c2 := net.Pipe()
+	sc := &closeNotifyConn{Conn: c2, closed: make(chan struct{}), written: make(chan struct{})}
+	lc = &lifeConn{client: c1, server: sc, state: "open"}
+	ran = make(chan bool, 1)
+	l.setOnClose(func() {
+		select {
+		case l.next <- lifeItem{conn: sc}:
+		case <-time.After(lifeWatchdog):
+			ran <- false
+			return
+		}
+		select {
+		case <-l.called:
+			ran <- true
+		case <-time.After(lifeWatchdog):
+			ran <- false
+		}
+	})
+	return lc, ran
+}
+
+// windowFate: what became of the connection accepted in the window - the
+// server closed it ("closed"), or its handler greeted it and serves it
+// ("open", the greeting is consumed); "" on a hang.
+func windowFate(c *lifeConn) string {
+	select {
+	case <-c.server.closed:
+		return "closed"
+	case <-c.server.written:
+		c.client.SetReadDeadline(time.Now().Add(lifeWatchdog))
+		bufio.NewReader(c.client).ReadString('\n')
+		c.client.SetReadDeadline(time.Time{})
+		return "open"
+	case <-time.After(lifeWatchdog):
+		return ""
+	}
 }
 
 func (l *lifeListener) Addr() net.Addr { return fakeAddr{} }
@@ -261,12 +329,38 @@ func RunLife(ops []lifeOp, pendingProbe time.Duration) *Sx {
 					obs.Add(L(A("timeout")))
 				}
 			}
-		case "close":
+		case "close", "wclose":
+			var wc *lifeConn
+			var ran chan bool
+			if o.kind == "wclose" && serving && !l.isClosed() {
+				wc, ran = l.armWindow()
+			}
 			ret := make(chan error, 1)
 			go func() { ret <- s.Close() }()
 			select {
 			case err := <-ret:
-				obs.Add(L(A("ret"), A(lifeRetName(err))))
+				l.setOnClose(nil)
+				hung := false
+				if wc != nil {
+					// the connection of the window: accepted iff the hook ran
+					select {
+					case ok := <-ran:
+						if ok {
+							wc.state = windowFate(wc)
+							hung = wc.state == ""
+						} else {
+							hung = true
+						}
+					default:
+						wc.client.Close()
+						wc = nil
+					}
+				}
+				if hung {
+					obs.Add(L(A("timeout")))
+				} else {
+					obs.Add(L(A("ret"), A(lifeRetName(err))))
+				}
 				if err == nil {
 					// Serve must return; the registered connections must get closed
 					waitServe()
@@ -276,14 +370,64 @@ func RunLife(ops []lifeOp, pendingProbe time.Duration) *Sx {
 						}
 					}
 				}
+				if wc != nil {
+					if wc.state == "" {
+						wc.state = "open"
+					}
+					conns = append(conns, wc)
+				}
 			case <-time.After(lifeWatchdog):
+				l.setOnClose(nil)
 				obs.Add(L(A("timeout")))
 			}
 			stopped = true
-		case "shutdown":
+		case "shutdown", "wshutdown":
+			var wc *lifeConn
+			var ran chan bool
+			if o.kind == "wshutdown" && serving && !l.isClosed() {
+				wc, ran = l.armWindow()
+			}
 			ctx, cancel := context.WithCancel(context.Background())
 			ch := make(chan error, 1)
 			go func() { ch <- s.Shutdown(ctx) }()
+			if wc != nil {
+				// Shutdown is inside the listener's Close (or has returned
+				// ErrServerClosed without reaching it)
+				hung := false
+				hookRan := func(ok bool) {
+					if ok {
+						wc.state = windowFate(wc)
+					}
+					hung = !ok || wc.state == ""
+					if wc.state == "" {
+						wc.state = "open"
+					}
+					conns = append(conns, wc)
+				}
+				select {
+				case ok := <-ran:
+					hookRan(ok)
+				case err := <-ch:
+					ch <- err
+					select {
+					case ok := <-ran:
+						hookRan(ok)
+					default:
+						l.setOnClose(nil)
+						wc.client.Close()
+						wc = nil
+					}
+				case <-time.After(lifeWatchdog):
+					hung = true
+				}
+				if hung {
+					l.setOnClose(nil)
+					cancel()
+					obs.Add(L(A("timeout")))
+					stopped = true
+					continue
+				}
+			}
 			wait := lifeWatchdog
 			if !stopped && openCount() > 0 {
 				wait = pendingProbe // expected to block: probe only briefly
@@ -408,6 +552,7 @@ func RunLife(ops []lifeOp, pendingProbe time.Duration) *Sx {
 var lifeAlphabet = []lifeOp{
 	{kind: "conn"}, {kind: "temp"}, {kind: "perm"}, {kind: "close"}, {kind: "shutdown"},
 	{kind: "finish", k: 0}, {kind: "finish", k: 1}, {kind: "expire"},
+	{kind: "wclose"}, {kind: "wshutdown"},
 }
 
 // GenLife: exhaustive short op sequences, seeded random longer ones, and the
@@ -460,10 +605,16 @@ func GenLife(rng *rand.Rand, thorough bool, emit func(*Sx)) {
 				}
 			case r < 50:
 				o = lifeOp{kind: "perm"}
-			case r < 62:
+			case r < 58:
 				o = lifeOp{kind: "close"}
-			case r < 76:
+			case r < 62:
+				o = lifeOp{kind: "wclose"}
+				nconn++
+			case r < 71:
 				o = lifeOp{kind: "shutdown"}
+			case r < 76:
+				o = lifeOp{kind: "wshutdown"}
+				nconn++
 			case r < 94:
 				o = lifeOp{kind: "finish", k: rng.Intn(nconn + 1)}
 			default:
